@@ -1,8 +1,20 @@
-"""C50 — bounded run-time contract check (see checks/C50_bounded.py for the contract and scope); proof kernel: see DESIGN §5 C50."""
-from vlib.thin import run_bounded_only
+"""C50 — ordering lists and association proxies behave as their collection types: OrderingList position bookkeeping under proof,
+operation sequences (bound / un-instrumented OrderingList, association proxies) as the bounded complement."""
+import importlib
+import contracts.orderinglist  # noqa: F401
+from pyvc.contract import FUNCS
+from vlib.proof import run_proofs
 
-LEVEL = "exploration"
+LEVEL = "proof"
+KEYS = [k for k, c in FUNCS.items() if "C50" in c.props and c.proof and not c.abstract]
 
 
 def run(run, tier, seed, args):
-    run_bounded_only(run, "C50", tier, seed)
+    run_proofs(run, KEYS, tier, update_baseline=args.update_baseline, source_root=args.source_root)
+    if not args.source_root:
+        importlib.import_module("checks.C50_bounded").bounded(run, tier, seed)
+    run.assumptions += [
+        "the ordering attribute is a ghost field `pos` read/written by _get_order_value/_set_order_value (getattr/setattr on the configured name); ordering_func is pure",
+        "no entity occurs twice in the list (precondition); super().<op> is the builtin list operation",
+        "under proof: _order_entity, reorder, append, insert, pop, remove, __delitem__(int); __setitem__ (known defects DESIGN §6 #6/#7), inherited extend/sort/reverse (#18) and the association proxies are in the bounded complement",
+    ]
